@@ -66,9 +66,21 @@ def run_case(case):
 
     tl = gen.mk_list(case["rows"])
     rows = C.prows(tl)
-    ev = {"rows": rows, "xv": case["xv"], "yv": case["yv"], "values": dict(case["values"]), "xl": case["xl"], "yl": case["yl"], "pts": [], "groups": ["plot"]}
+    evs = []
+    # the same list object is sliced twice: first with narrower limits, then with the case's limits
+    narrow = ([min(case["xl"][0] + 2, case["xl"][1] - 1), case["xl"][1] - 1], [min(case["yl"][0] + 2, case["yl"][1] - 1), case["yl"][1] - 1])
+    for xl, yl in (narrow, (case["xl"], case["yl"])):
+        evs.append(one_call(case, tl, rows, list(xl), list(yl)))
+    return {"id": case["id"], "ev": evs}
+
+
+def one_call(case, tl, rows, xl, yl):
+    from pacti.iocontract import Var
+    from pacti.utils.plots import constraints_to_vertices
+
+    ev = {"rows": rows, "xv": case["xv"], "yv": case["yv"], "values": dict(case["values"]), "xl": xl, "yl": yl, "pts": [], "groups": ["plot"]}
     try:
-        xs, ys = constraints_to_vertices(tl, Var(case["xv"]), Var(case["yv"]), {Var(k): v for k, v in case["values"].items()}, tuple(case["xl"]), tuple(case["yl"]))
+        xs, ys = constraints_to_vertices(tl, Var(case["xv"]), Var(case["yv"]), {Var(k): v for k, v in case["values"].items()}, tuple(xl), tuple(yl))
         ev["ans"] = "ok"
         pts = []
         for x, y in zip(xs, ys):
@@ -83,7 +95,7 @@ def run_case(case):
     except Exception as e:  # noqa: BLE001
         ev["ans"] = type(e).__name__
         ev["_msg"] = str(e)[:100]
-    return {"id": case["id"], "ev": [ev]}
+    return ev
 
 
 def main(tier, replay=None):
@@ -97,22 +109,22 @@ def main(tier, replay=None):
     verdicts = family.judge_traces(rep, "TracePlots", "TracePlots.cfg", traces, rd, batch=400)
     counts, nontriv = {}, set()
     by_id = {c["id"]: c for c in cases}
-    for t in traces:
-        ev = t["ev"][0]
-        kind, detail = verdicts[(t["id"], 1, "plot")]
+    for t, l_ in ((t_, l_) for t_ in traces for l_ in (1, 2)):
+        ev = t["ev"][l_ - 1]
+        kind, detail = verdicts[(t["id"], l_, "plot")]
         key = "%s:%s" % (kind, detail.split(":")[0])
         counts[key] = counts.get(key, 0) + 1
         ncorn = len({tuple(F(p[0], p[2]) if p[2] else 0 for p in [q][:1]) + (F(q[1], q[2]) if q[2] else 0,) for q in ev["pts"]})
         counts["corners=%d" % ncorn] = counts.get("corners=%d" % ncorn, 0) + 1
         if kind == "ok":
-            nontriv.add(digest(by_id[t["id"]]))
+            nontriv.add(digest([by_id[t["id"]], l_]))
         if kind == "violation":
             rep.violation({"law": detail.split(":")[0], "ans": ev["ans"]}, {"case": by_id[t["id"]], "event": family.clean_json(ev), "raw": ev.get("_raw"), "verdict": [kind, detail]})
         if len(rep.cov["samples"]) < 3 and ncorn >= 3:
             rep.sample({"case": by_id[t["id"]], "vertices": ev.get("_raw"), "verdict": [kind, detail]})
     shutil.rmtree(rd, ignore_errors=True)
     return rep.finish({
-        "evaluations": len(traces),
+        "evaluations": 2 * len(traces),
         "distinct_nontrivial": len(nontriv),
         "traces_validated_against_impl": len(traces),
         "rule": "constraint lists over 2-4 variables (coefficients -3..3), integer values for the non-plot variables and integer limits in [-5,5]: "
